@@ -50,7 +50,7 @@ def trace_for(lc, ctx, tid, seq, hist_mode):
 
 def run(ctx):
     lc = common.load_repo(ctx.repo)
-    ctx.rule = ("(M) every composition (p,n,z) with N <= MaxN plus the slab z in 15..19, p,n <= 2 is a TLC state: DMaxSymmetric, "
+    ctx.rule = ("(M) every composition (p,n,z) with N <= MaxN plus the slab z in 15..19 with one charge count <= 2 and the other <= 8 is a TLC state: DMaxSymmetric, "
                 "PermAttains, RegimePartition, FamilyMirror, ZeroWhenTrivial, TieAgreesNoNeutral; (G) every composition realised "
                 "through several random permutations/spellings; get_deltaMax(), get_deltaMax(True) (fresh, after get_kappa, after a "
                 "random history) recorded and judged by TLC (value = family maximum, permutant is a rearrangement whose exact delta "
